@@ -41,3 +41,34 @@ def _has_zero_cond(case, step):
 KNOWN_MATCHERS = {
     "GCS-7": _has_zero_cond,
 }
+
+
+_CORR = " The model is tied to the code on every run: the Go harness executes generated and enumerated request programs on the real implementation built from /repo's working tree, and the model is evaluated on the same programs inside Coq (vm_compute); any difference in a property-relevant observable is reported with the program as replay."
+_NOTE = "Trusted: Coq 8.16.1 kernel and vm_compute; the Go harness (builders, decoders, canonicalisation); tools/goconsts; the models of library code named in the evidence file (protobuf/JSON codecs, RE2, goleveldb, btree, net/http, filesystem, clocks). Sampled programs bound the correspondence, not the theorems."
+
+TEXT = {
+ "C01": dict(technique="Coq refinement proof (mutation semantics vs cell-map spec, row invariant) + differential correspondence on random programs, 3 engines",
+             level="Theorems about the executable model of applyMutations/scrubRow/updateRow/ReadRows: the row invariant (families once, columns ascending, cells strictly descending, nothing empty) is preserved by every request, and each mutation refines the Bigtable cell-map semantics for all rows, mutation lists and clocks." + _CORR, note=_NOTE),
+ "C02": dict(technique="Coq proof (resumable assembly invariant, frame lemmas over the handler model) + differential correspondence on random histories, both stores",
+             level="Theorems about the handler model: a resumable session consistent with payload P keeps a prefix of P and completes with exactly P for every chunking/re-send/status-query sequence; upload-then-get, bad-MD5-keeps-previous, delete-makes-absent and other-objects-untouched for all states." + _CORR, note=_NOTE),
+ "C03": dict(technique="Coq proof (range merge = set union, sorted/disjoint, scan exactness) + exhaustive RowSet enumeration over the adversarial key universe, 3 engines",
+             level="Theorems about mergeRowRanges/mergeSimpleRanges and the scan: the merged ranges denote exactly the union of the requested keys and ranges for ALL range lists, the scan returns each qualifying row once in key order, limits take the first N rows with output." + _CORR, note=_NOTE),
+ "C04": dict(technique="Coq proof (truth-table equivalence, frame theorem over all handlers) + complete enumeration of the condition table by vm_compute correspondence",
+             level="Theorems about parseConds/validateConds and every handler model: the code's truth table equals 'every supplied precondition holds' for all values and object states (guarded; the excluded case is refuted by a witness = finding GCS-7), failure codes lie in the allowed set, errors leave all objects untouched. Correspondence: the complete 4-parameter x 6-value x 4-state x 7-operation x 2-store table plus random histories, with a model-independent oracle on the observed responses." + _CORR, note=_NOTE),
+ "C05": dict(technique="Coq proof (regex matcher correctness, filter evaluator vs denotational filter semantics) + differential correspondence on generated filter trees, 3 engines",
+             level="Theorems about the filter model: the derivative matcher decides the regular language; the evaluator refines the cell-list semantics of every supported filter; invalid arguments are rejected by the validator for all trees." + _CORR, note=_NOTE),
+ "C10": dict(technique="Coq invariant proof (generation counter monotone, metageneration laws) + differential correspondence on random histories, both stores",
+             level="Theorems over all histories of the handler model with the store clock as a strictly increasing counter: every content write gets a generation above everything handed out before and metageneration 1; a patch bumps only metageneration; reads and failures change nothing." + _CORR, note=_NOTE + " Assumes the stores' wall clock strictly increases between successive writes."),
+ "C12": dict(technique="Coq proof (branch selection of CheckAndMutateRow vs filter semantics) + differential correspondence, 3 engines",
+             level="Theorems about the CheckAndMutateRow model: predicate_matched iff the predicate filter yields a cell on the current row, exactly the selected mutation list is applied with MutateRow semantics, errors leave the row unchanged." + _CORR, note=_NOTE),
+ "C13": dict(technique="Coq proof (big-endian codec round trip, rule fold vs spec, wrap-around) + differential correspondence, 3 engines",
+             level="Theorems about the ReadModifyWriteRow model: be64 round trip, increments wrap at 64 bits, rules apply in order to the newest cell, timestamp = max(server ms, previous), failure atomicity." + _CORR, note=_NOTE),
+ "C14": dict(technique="Coq proof (registry laws, atomic family modification, exact prefix drop) + differential correspondence on admin/data programs, 3 engines",
+             level="Theorems about the admin handlers' model: create/get/list/delete laws, ModifyColumnFamilies applies all modifications or none, dropping a family removes exactly its cells, DropRowRange removes exactly the keys with the prefix." + _CORR, note=_NOTE),
+ "C15": dict(technique="Coq proof (compose = concatenation, bounds, copy clones) + differential correspondence on random histories, both stores",
+             level="Theorems about the compose/copy handler models for all source lists and states." + _CORR, note=_NOTE),
+ "C16": dict(technique="Coq proof (applyGC = filter of non-condemned cells; pass touches nothing else) + differential correspondence with forced GC passes, 3 engines",
+             level="Theorems about applyGC and the GC pass model for all rule trees, cell lists and clocks; schedule part (hand-over) by the section/mutex model." + _CORR, note=_NOTE),
+ "C17": dict(technique="one Coq model for all engines + pairwise differential correspondence of the three engines on every program",
+             level="A single ordered-map model of the Rows interface; every generated program runs on the btree, in-memory leveldb and on-disk leveldb engines and each is compared with the same model (hence pairwise)." + _CORR, note=_NOTE),
+}
